@@ -55,7 +55,9 @@ def cases(draw, max_n=40):
     lifespan = draw(st.sampled_from((None, None, None, 5 * step, 12 * step)))
     # maintenance between the appends and the questions: the accessors must agree in every reachable state
     maint = draw(st.sampled_from((None, None, "purge+calculate_index+calculate", "recalculate", "calculate_index")))
-    return {"members": members, "stream": stream, "fill": fill, "lifespan": lifespan, "maintenance": maint, "preload": preload, "chunks": draw(gs.chunking(n - preload))}
+    # the Hexital itself may collapse (its default candles are then a timeframe too, possibly the same one a member names)
+    hx_tf = draw(st.sampled_from((None, None, None, "T5", "T1", "T10")))
+    return {"hx_tf": hx_tf, "members": members, "stream": stream, "fill": fill, "lifespan": lifespan, "maintenance": maint, "preload": preload, "chunks": draw(gs.chunking(n - preload))}
 
 
 def run_case(case) -> Result:
@@ -72,6 +74,11 @@ def run_case(case) -> Result:
         from datetime import timedelta
 
         extra = {"candles_lifespan": timedelta(seconds=case["lifespan"])} if case.get("lifespan") else {}
+        if case.get("hx_tf"):
+            extra["timeframe"] = case["hx_tf"]
+            labels.append("hexital_timeframe")
+            if any(m["tf"] == case["hx_tf"] for m in case["members"]):
+                labels.append("member_names_the_hexital_timeframe")
         hx = Hexital("c20", mk_candles(rows[:pre]), inds, timeframe_fill=bool(case.get("fill")), **extra)
         hx.calculate()
         rest = rows[pre:]
